@@ -40,7 +40,10 @@ local macro "gen_update_cases" n:ident m:ident varA:ident varB:ident : tactic =>
      simp (disch := gen_disch) [UpdateStatistics.updateStatistics, Stats.updateStatistics, Stats.scaledVar, Stats.oadd, genTriple,
        eq_false_of_pos_real, eq_false_of_pos_int, ← add_assoc, lt_eq_true_int, lt_eq_false_int, lt_eq_true_nat,
        lt_eq_false_nat]
-   all_goals (field_simp (disch := gen_disch); ring)))
+   all_goals (try field_simp (disch := gen_disch))
+   all_goals (try ring)
+   all_goals (try simp only [and_true, true_and, Option.some.injEq, Prod.mk.injEq])
+   all_goals (try gen_disch)))
 
 set_option linter.unusedSimpArgs false
 set_option linter.unusedTactic false
